@@ -99,7 +99,7 @@ def check(prog, res, tier):
 
     def chk0(p, mode):
         if p.outcome != 'return':
-            return [definite(f'to_bytes raises {p.value!r}')]
+            return [definite(f'to_bytes raises {p.value!r}')] if p.outcome == 'raise' else []
         pin_src = p.interp.user['pin'].segs[0].src
         card_src = p.interp.user['card'].segs[0].src
         st = p.store
@@ -149,7 +149,7 @@ def check(prog, res, tier):
 
     def chk4(p, mode):
         if p.outcome != 'return':
-            return [definite(f'to_bytes raises {p.value!r}')]
+            return [definite(f'to_bytes raises {p.value!r}')] if p.outcome == 'raise' else []
         pin_src = p.interp.user['pin'].segs[0].src
         st = p.store
         v = p.value
@@ -190,7 +190,7 @@ def check(prog, res, tier):
 
         def chk_f(p, mode, cls=cls, fb=fb, fmtname=fmtname):
             if p.outcome != 'return':
-                return [definite(f'{fmtname}: from_bytes raises {p.value!r}')]
+                return [definite(f'{fmtname}: from_bytes raises {p.value!r}')] if p.outcome == 'raise' else []
             st = p.store
             fails = []
             # the length parse: an int() call whose argument is character [1:2] of the 16/32 digit hex field
@@ -256,7 +256,7 @@ def check(prog, res, tier):
 
     def chk_r(p, mode):
         if p.outcome != 'return':
-            return [definite('constructor raises')]
+            return [definite('constructor raises')] if p.outcome == 'raise' else []
         rv = p.value.fields.get('random_value')
         if not isinstance(rv, IntV):
             return [definite(f'random fill is {rv!r}')]
@@ -322,7 +322,7 @@ def check(prog, res, tier):
         def chk_te(p, mode):
             u = p.interp.user
             if p.outcome != 'return':
-                return [definite(f'to_enc_bytes raises {p.value!r}')]
+                return [definite(f'to_enc_bytes raises {p.value!r}')] if p.outcome == 'raise' else []
             a = u.get('encrypt_args')
             if not a or len(a) != 2 or a[0] is not u['key'] or a[1] is not u.get('to_bytes_ret'):
                 return [definite(f'to_enc_bytes does not compute encrypt(key, self.to_bytes()): encrypt got {a!r}')]
@@ -343,7 +343,7 @@ def check(prog, res, tier):
         def chk_fe(p, mode):
             u = p.interp.user
             if p.outcome != 'return':
-                return [definite(f'from_enc_bytes raises {p.value!r}')]
+                return [definite(f'from_enc_bytes raises {p.value!r}')] if p.outcome == 'raise' else []
             a = u.get('decrypt_args')
             if not a or len(a) != 2 or a[0] is not u['key'] or a[1] is not u['enc']:
                 return [definite(f'from_enc_bytes does not compute decrypt(key, enc_pin_block): decrypt got {a!r}')]
